@@ -48,6 +48,7 @@ def c10_mods():
             "svg_path_iter regexes wrapped by sx.symstr.SymPattern: Python backtracking semantics over symbolic characters, "
             "compiled from the .pattern of the module's own regex objects"
         )
+        loader.snapshot_state(m, names=("svg_path_iter", "svg_meta"))
         _MODS = m
     return _MODS
 
@@ -159,6 +160,42 @@ def make_l2(letters, reps, numlen, sepstyle):
             buf = buf + p
         text = None if h.symbolic else "".join(text_parts)
         return compare(h, buf, text)
+
+    return harness
+
+
+# ------------------------------------------------------------------ call history
+def make_hist(c1, c2):
+    """parse `M0,0 c1 T` and then `M0,0 c2 T` in the SAME module instance (reset to its freshly
+    imported state at the start of every path): the second parse must still be what the grammar
+    defines for its own string.  T is one argument text shared by both commands: seven one-
+    character tokens `t1 t2 t3 t4t5 t6 t7`, the 4th and 5th adjacent (compact arc flags for A/a,
+    one two-digit number for every other command): the only place where the same text lexes
+    differently depending on the command letter."""
+
+    def harness(h):
+        mods = c10_mods() if h.symbolic else None
+        if h.symbolic:
+            loader.reset_state(mods)
+            h.ctx.opts["alphabet"] = ALPHABET
+            h.ctx.opts["sym_hash"] = True
+        toks = []
+        for i in range(7):
+            if h.symbolic:
+                toks.append(SymStr.fresh(f"n{i}", 1, "0159"))
+            else:
+                toks.append(SymStr([int(h.real(f"n{i}!0"))]))
+        T = toks[0] + " " + toks[1] + " " + toks[2] + " " + toks[3] + toks[4] + " " + toks[5] + " " + toks[6]
+        t_text = None if h.symbolic else "".join(chr(c) for c in T.cs)
+        b1 = SymStr([ord(c) for c in "M0,0" + c1]) + T
+        b2 = SymStr([ord(c) for c in "M0,0" + c2]) + T
+        if h.symbolic:
+            r1 = compare(h, b1, None)
+            return r1 + compare(h, b2, None)
+        # concrete: a fresh interpreter state is not available in-process; the real package is
+        # imported once per replay process, which is the history under test (A then B)
+        r1 = compare(h, b1, "M0,0" + c1 + t_text)
+        return r1 + compare(h, b2, "M0,0" + c2 + t_text)
 
     return harness
 
@@ -474,6 +511,16 @@ def cases(tier, seed):
     for n in range(1, 6 if tier == "quick" else 8):
         cs.append({"kind": "token", "n": n})
     cs += ntos_cases(tier)
+    # call histories: every ordered pair of argument-taking letters in which at least one is an arc
+    # (plus, in thorough, all pairs)
+    args_letters = [L for L in LETTERS if L not in "Zz"]
+    for c1 in args_letters:
+        for c2 in args_letters:
+            if c1 == c2:
+                continue
+            if tier == "quick" and not (c1 in "Aa" or c2 in "Aa"):
+                continue
+            cs.append({"kind": "hist", "c1": c1, "c2": c2})
     return cs
 
 
@@ -495,6 +542,8 @@ def harness_for(case):
         return make_print(case["letter"], case["reps"])
     if k == "ntos":
         return make_ntos(case["form"], case["sk"])
+    if k == "hist":
+        return make_hist(case["c1"], case["c2"])
     return make_token(case["n"])
 
 
@@ -529,6 +578,8 @@ def finding_key(case, failure):
         k["letter"] = case["letter"]
     elif case["kind"] == "ntos":
         k["form"] = case["form"]
+    elif case["kind"] == "hist":
+        k["c1"], k["c2"] = case["c1"], case["c2"]
     else:
         k["n"] = case["n"]
     return k
